@@ -126,6 +126,34 @@ def check_learner_outputs(ctx, n_cases):
                 if kw != want_kw or p != want_p:
                     ctx.fail(["evaluate", "learn-trace", "mapping-kwargs"], "interaction %d: the learner returned extra outputs %s (a read-only mapping) and probability %r; learn got probability %r and extra outputs %s" % (k, want_kw, want_p, p, kw), case); break
 
+def reuse_law(ctx, n_cases):
+    """one SequentialCB object evaluates several (environment, learner) pairs (as every experiment does): what it does with a pair - rows, calls, or the rejection of an
+    environment that lacks needed fields - is what a fresh evaluator of the same mode does with that pair, whatever it evaluated before (learners with and without score, other fields)"""
+    from coba.evaluators import SequentialCB
+    rng = ctx.rng
+    all_fields = ["context", "actions", "rewards", "action", "reward", "probability"]
+    def outcome(ev, rows, hs, fmt):
+        lrn = Rec(fmt, hs, False)
+        try: out = list(ev.evaluate(Env([r[0] for r in rows]), lrn)); return ("rows", [{k: v for k, v in o.items() if k != "time"} for o in out], [c[:3] for c in lrn.calls])
+        except Exception as e: return ("raises", errname(e), [c[:3] for c in lrn.calls])
+    for _ in range(n_cases):
+        learn, evm = rng.choice([None, "on", "off", "ips"]), rng.choice([None, "on", "ips"]); record = rng.choice([["reward"], ["reward", "action", "probability"], ["reward", "probability"]])
+        pairs = []; same_fields = rng.random() < 0.7; present = None      # mostly ONE kind of environment (the same fields) met with different learners
+        for _ in range(rng.choice([2, 3])):
+            if present is None or not same_fields:
+                present = [f for f in all_fields if rng.random() < 0.7] if rng.random() < 0.7 else list(all_fields)
+                if "context" not in present: present.append("context")
+            pairs.append((gen_env(rng, present), rng.random() < 0.5, rng.choice(["AP", "A"]), present))
+        case = dict(what="one evaluator object, several evaluations", learn=learn, eval=evm, record=record, pairs=[dict(fields=p[3], has_score=p[1], format=p[2], n=len(p[0])) for p in pairs])
+        ctx.count("evaluator-reused:%s/%s" % (learn, evm), repr(case), True)
+        try: shared = SequentialCB(record, learn, evm, seed=1)
+        except Exception: continue
+        for k, (rows, hs, fmt, present) in enumerate(pairs):
+            got = outcome(shared, rows, hs, fmt); want = outcome(SequentialCB(record, learn, evm, seed=1), rows, hs, fmt)
+            if got != want:
+                ctx.fail(["evaluate", "depends-on-earlier-evaluations"], "evaluation #%d by a SequentialCB(%r, %r, %r) that had evaluated %d other pairs: %s; a fresh evaluator: %s" % (
+                    k, record, learn, evm, k, (got[0], got[1] if got[0] == "raises" else len(got[1]), got[2][:2]), (want[0], want[1] if want[0] == "raises" else len(want[1]), want[2][:2])), case); break
+
 def run(ctx):
     from coba.evaluators import SequentialCB
     from coba.exceptions import CobaException
@@ -143,6 +171,7 @@ def run(ctx):
     for (case, got), mo in zip(metas, ctx.get_model().batch(reqs)):
         exp = set((["actions"] if mo[0] else []) + (["action", "reward"] if mo[1] else []) + (["rewards"] if mo[2] else []))
         if exp != set(got): ctx.disagree("C06.required", case, sorted(got), sorted(exp))
+    reuse_law(ctx, ctx.n(200, 2500))
     # ---- behaviour
     all_fields = ["context", "actions", "rewards", "action", "reward", "probability"]
     loop_reqs, loop_metas = [], []
